@@ -469,7 +469,10 @@ def core_hooks(extra_ext=None):
         "numpy.any": lambda x, *a, **k: x,
         "numpy.sqrt": lambda x, *a, **k: RawTok(("sqrt", x.origin), x.shape) if isinstance(x, RawTok) else x,
         "numpy.zeros": lambda *a, **k: RawTok(("zeros",)),
-        "numpy.where": lambda c, a, b: RawTok(("where",)),
+        "numpy.where": lambda c, *ab: RawTok(("where",)) if ab else tuple(RawTok(("nonzero", tok_origin(c), ax), ("sel",)) for ax in range(max(1, len(getattr(c, "shape", (1,)))))),
+        "numpy.nonzero": lambda c: tuple(RawTok(("nonzero", tok_origin(c), ax), ("sel",)) for ax in range(max(1, len(getattr(c, "shape", (1,)))))),
+        "numpy.flatnonzero": lambda c: RawTok(("flatnonzero", tok_origin(c)), ("sel",)),
+        "numpy.argwhere": lambda c: RawTok(("argwhere", tok_origin(c)), ("sel", max(1, len(getattr(c, "shape", (1,)))))),
         "numpy.reciprocal": lambda x: OpTok("reciprocal", x, None) if isinstance(x, ArrTok) else x,
         "numpy.logical_not": lambda x: OpTok("logical_not", x, None) if isinstance(x, ArrTok) else x,
     }
